@@ -84,6 +84,9 @@ package privval
 //@     | pv.LastSignState.Step == old(pv.LastSignState.Step) && pv.LastSignState.Signature == old(pv.LastSignState.Signature) && pv.LastSignState.SignBytes == old(pv.LastSignState.SignBytes) &&
 //@     | pH == old(pH) && pR == old(pR) && pS == old(pS) && pSig == old(pSig) && pSB == old(pSB))
 //@   ensures disk: pH == pv.LastSignState.Height && pR == pv.LastSignState.Round && pS == pv.LastSignState.Step && pSig == pv.LastSignState.Signature && pSB == pv.LastSignState.SignBytes
+//@   ensures reuse_bytes: (result == nil && old(pv.LastSignState.Height) == vote.Height && old(pv.LastSignState.Round) == vote.Round && old(pv.LastSignState.Step) == ite(vote.Type == 1, 2, 3)) ==>
+//@     | (old(signBytes(chainID, int32(vote.Type), vote.Height, vote.Round, vote.BlockID.Hash, vote.BlockID.PartSetHeader.Total, vote.BlockID.PartSetHeader.Hash, vote.Timestamp)) == old(pv.LastSignState.SignBytes) ||
+//@     |  sameButTimestamp(old(pv.LastSignState.SignBytes), old(signBytes(chainID, int32(vote.Type), vote.Height, vote.Round, vote.BlockID.Hash, vote.BlockID.PartSetHeader.Total, vote.BlockID.PartSetHeader.Hash, vote.Timestamp))))
 
 // signProposal: the same two ways, for step 1 (propose).
 //@ func FilePV.signProposal
@@ -100,3 +103,6 @@ package privval
 //@     | pv.LastSignState.Step == old(pv.LastSignState.Step) && pv.LastSignState.Signature == old(pv.LastSignState.Signature) && pv.LastSignState.SignBytes == old(pv.LastSignState.SignBytes) &&
 //@     | pH == old(pH) && pR == old(pR) && pS == old(pS) && pSig == old(pSig) && pSB == old(pSB))
 //@   ensures disk: pH == pv.LastSignState.Height && pR == pv.LastSignState.Round && pS == pv.LastSignState.Step && pSig == pv.LastSignState.Signature && pSB == pv.LastSignState.SignBytes
+//@   ensures reuse_bytes: (result == nil && old(pv.LastSignState.Height) == proposal.Height && old(pv.LastSignState.Round) == proposal.Round && old(pv.LastSignState.Step) == 1) ==>
+//@     | (old(proposalSignBytes(chainID, int32(proposal.Type), proposal.Height, proposal.Round, proposal.PolRound, proposal.BlockID.Hash, proposal.BlockID.PartSetHeader.Total, proposal.BlockID.PartSetHeader.Hash, proposal.Timestamp)) == old(pv.LastSignState.SignBytes) ||
+//@     |  sameButTimestamp(old(pv.LastSignState.SignBytes), old(proposalSignBytes(chainID, int32(proposal.Type), proposal.Height, proposal.Round, proposal.PolRound, proposal.BlockID.Hash, proposal.BlockID.PartSetHeader.Total, proposal.BlockID.PartSetHeader.Hash, proposal.Timestamp))))
